@@ -136,6 +136,14 @@ impl ast::BinOpKind {
     }
 }
 
+impl ast::BinOpKind {
+    /// Returns `true` if the operation has no defined value for these operands (integer division or
+    /// remainder by zero).  Callers must report an error instead of calling [`Self::const_eval`].
+    pub fn is_undefined_for(&self, a: &ScalarValue, b: &ScalarValue) -> bool {
+        matches!((self, a, b), (token![binop /] | token![binop %], ScalarValue::Int(_), ScalarValue::Int(0)))
+    }
+}
+
 fn handle_shift_rhs(x: i32) -> u32 {
     // FIXME: we would ideally warn on x out of range but it's hard to get an emitter here...
     //        (also it might warn multiple times)
@@ -233,6 +241,14 @@ impl ast::VisitMut for Visitor<'_, '_> {
 
             ast::Expr::BinOp(a, op, b) => {
                 if let (Some(a_value), Some(b_value)) = (a.to_const(), b.to_const()) {
+                    if op.is_undefined_for(&a_value, &b_value) {
+                        let divisor_span = b.span;
+                        self.errors.set(self.ctx.emitter.emit(error!(
+                            message("division by zero in constant expression"),
+                            primary(divisor_span, "divisor is zero"),
+                        )));
+                        return;
+                    }
                     e.value = op.const_eval(a_value, b_value).into();
                 };
             },
